@@ -270,6 +270,9 @@ func GenInput(t *rapid.T, p *Profile) *Input {
 		}
 	}
 	cfg.MaskSites = p.MaskSites
+	if len(fineSiteList) > 0 {
+		cfg.FineSites = genFineSites(t, "")
+	}
 	bigPct := 20
 	if p.Name == "audit" {
 		bigPct = 50
